@@ -103,6 +103,7 @@ def install_hooks():
         r = orig_call(self, root)
         f = STATE["facts"]
         if f is not None and isinstance(r, ModuleNode.ModuleNode) and _mine(r.pos):
+            f["module"] = _pick(r.directives)
             Walk(f).visit(r)
         return r
     PTT.InterpretCompilerDirectives.__call__ = icd_call
@@ -192,6 +193,13 @@ def run_fact_job(job):
     finally:
         sys.stderr, sys.stdout = old_err, old_out
     res["stderr"] = errbuf.getvalue()[-3000:]
+    if res["crash"] is None and "Compiler crash in " in errbuf.getvalue():
+        # an exception inside a tree transform is reported as an error ("Compiler crash in <phase>")
+        text = errbuf.getvalue()
+        last = [l for l in text.strip().splitlines() if l and not l.startswith(" ")]
+        exc = last[-1].split(":")[0].strip() if last else "unknown"
+        res["crash"] = exc.split(".")[-1] if exc.replace(".", "").replace("_", "").isalnum() else "CompilerCrash"
+        res["crash_tb"] = text[-1500:]
     res["facts"] = STATE["facts"]
     STATE["facts"] = None
     return res
@@ -226,6 +234,24 @@ def run_parse(req):
                                                                                ignore_unknown=ign))])
         except BaseException as e:
             out["list"].append(["exc", type(e).__name__])
+    if req.get("table"):
+        # the implementation's own directive table: which names a directive string can reach
+        # (keys of the defaults) and the class of their type
+        def tclass(t):
+            if t is bool:
+                return "bool"
+            if t is int:
+                return "int"
+            if t is str:
+                return "str"
+            if t is list:
+                return "list"
+            if t in (dict, type, type(None)) or t is None or not callable(t):
+                return "novalue"
+            return "validator"
+        out["table"] = {"types": {n: tclass(Options.directive_types.get(n)) for n in Options._directive_defaults},
+                        "scopes": {n: list(v) if isinstance(v, (tuple, list)) else [v]
+                                   for n, v in Options.directive_scopes.items()}}
     return out
 
 
